@@ -96,6 +96,11 @@ class Gen:
             ops.append({"op": "eternity"})
         else:
             self.maybe_raise(ops)
+        if rng.random() < 0.15:
+            # cleanup handler: spawns a sibling into the (possibly closing) parent scope
+            handler = [{"op": "sleep", "d": rng.choice(DELAYS)}] if rng.random() < 0.4 else []
+            ops = [{"op": "finally", "body": ops, "handler": handler,
+                    "sync": [{"op": "spawn", "into": parent_label, "actor": self.late_child()}]}]
         return ops
 
     def scope(self, depth):
